@@ -260,6 +260,13 @@ def test_oracle(c):
         return "a healthy request sent after this one was not served: " + c["obs"]["followup"]
     if code in (3, 4, 5, 6, 7):
         return "no orderly HTTP response: " + CODE_NAME[code]
+    if c.get("ws") and c["obs"].get("ws_end"):
+        o = c["obs"]
+        # live tail: one ping and at most one answer per second; an empty message is not a JSON document
+        if o.get("ws_empty", 0) > 0 or o.get("ws_msgs", 0) > 3 * (o.get("ms", 0) // 1000 + 1) + 3:
+            return "live tail floods the client: %d websocket messages (%d empty) in %d ms" % (o.get("ws_msgs", 0), o.get("ws_empty", 0), o.get("ms", 0))
+        if ("ws_tail_db_error" in c["class"] or "ws_tail_bad_cell" in c["class"]) and o["ws_end"] != "server-closed":
+            return "live tail: the tail goroutine ended after a database error but the session was not ended by the server (%s)" % o["ws_end"]
     if c["class"].startswith("test/prom_range"):
         step = [p["v"] for p in c["params"] if p["k"] == "step"]
         if step and re.fullmatch(r"-?\d+(\.\d+)?s?", step[0]) and float(step[0].rstrip("s")) <= 0:
